@@ -162,6 +162,7 @@ def run_v2(ctx: Ctx, n: int):
 
 
 def run(ctx: Ctx):
+    G.cap_violations(ctx)
     run_v1(ctx, ctx.scale(350, 8000))
     run_v2(ctx, ctx.scale(500, 10000))
 
